@@ -50,7 +50,11 @@ BUILTINS = ["string", "int", "boolean", "decimal", "float", "date", "time", "dat
 class Elem(object):
     """A (local or global) element declaration as the abstract interface sees it."""
 
-    def __init__(self, name, ns, qualified, tref, opt=False, multi=False, nillable=False, default=None):
+    def __init__(self, name, ns, qualified, tref, opt=False, multi=False, nillable=False, default=None, ref=False):
+        # ref: the member is written <xsd:element ref="p:name" [occurs]/> and `name` is declared as a GLOBAL
+        # element of namespace `ns` (any namespace of the schema) carrying type / nillable / default; the
+        # abstract declaration is the one the reference denotes (always qualified)
+        self.ref = ref
         self.name = name            # str
         self.ns = ns                # index of the namespace its name lives in when qualified
         self.qualified = qualified
@@ -147,11 +151,13 @@ MARKUP_ATTR_NAMES = ("type", "nil", "arrayType", "id", "href")
 
 
 def gen_schema(rng, n_ns=None, max_types=5, depth=3, allow_any=False, allow_choice=True, markup_attr_names=False,
-               p_nested=0.25, p_cont_opt=0.25, p_named=0.3):
+               p_nested=0.25, p_cont_opt=0.25, p_named=0.3, p_ref=0.0, attr_builtins=None):
     """markup_attr_names (default off: the PRNG stream is then unchanged): schema attributes may be
     NAMED like suds' own markup attributes (each name at most once per schema).
     p_nested / p_cont_opt / p_named: probability that a member of a container is itself a container, that a
-    nested container is minOccurs=0, that an element has a named complex type (defaults = the historic values)."""
+    nested container is minOccurs=0, that an element has a named complex type (defaults = the historic values).
+    p_ref (default 0: stream unchanged): probability that a member is declared by reference to a global element
+    of the same or another namespace.  attr_builtins: builtin types of attributes (default string/int/boolean)."""
     n_ns = n_ns or rng.choice([1, 1, 2, 2, 3])
     S = Schema([("urn:fam:ns%d" % i, rng.random() < 0.6) for i in range(n_ns)])
     ntypes = rng.randrange(1, max_types + 1)
@@ -178,6 +184,11 @@ def gen_schema(rng, n_ns=None, max_types=5, depth=3, allow_any=False, allow_choi
                  nillable=rng.random() < 0.25)
         if tref[0] == "b" and not e.multi and rng.random() < 0.1:
             e.default = "dflt"
+        if p_ref and rng.random() < p_ref:
+            e.ref = True
+            e.qualified = True
+            if rng.random() < 0.5:
+                e.ns = rng.randrange(n_ns)
         return e
 
     def gen_cont(ns, level, avail_types, top=False):
@@ -211,7 +222,7 @@ def gen_schema(rng, n_ns=None, max_types=5, depth=3, allow_any=False, allow_choi
                 if free and rng.random() < 0.5:
                     aname = rng.choice(free)
                     used_markup.add(aname)
-            a = Attr(aname, rng.choice(["string", "int", "boolean"]),
+            a = Attr(aname, rng.choice(attr_builtins or ["string", "int", "boolean"]),
                      required=rng.random() < 0.3)
             if not a.required and rng.random() < 0.4:
                 a.default = "adef"
@@ -486,6 +497,10 @@ class Renderer(object):
         return "%s:%s" % (self.prefixes[tr[1]], tr[2])
 
     def elem(self, e, declaring_ns, indent):
+        if getattr(e, "ref", False):
+            # the global declaration is emitted by schema_block(e.ns); with local_tns the block's own
+            # namespace is reached through `tns` (self.prefixes is patched by schema_block)
+            return '%s<xsd:element ref="%s:%s"%s/>' % (indent, self.prefixes[e.ns], e.name, _occurs(e))
         a = ' name="%s" type="%s"%s' % (e.name, self.tref(e.tref), _occurs(e))
         if e.nillable:
             a += ' nillable="true"'
@@ -533,6 +548,26 @@ class Renderer(object):
                        "\n".join(inner), indent, indent, indent))
         return '%s<xsd:complexType name="%s">\n%s\n%s</xsd:complexType>' % (indent, t.name, "\n".join(inner), indent)
 
+    def ref_targets(self, ns):
+        """global element declarations for the members of any type declared by ref= into namespace ns"""
+        out = []
+
+        def walk(p):
+            if isinstance(p, Cont):
+                for k in p.kids:
+                    walk(k)
+            elif isinstance(p, Elem) and p.ref and p.ns == ns:
+                a = ' name="%s" type="%s"' % (p.name, self.tref(p.tref))
+                if p.nillable:
+                    a += ' nillable="true"'
+                if p.default is not None:
+                    a += ' default="%s"' % p.default
+                out.append("      <xsd:element%s/>" % a)
+        for t in self.S.types:
+            for p in t.content:
+                walk(p)
+        return out
+
     def schema_block(self, ns, extra=""):
         uri, qual = self.S.namespaces[ns]
         imports = "".join('      <xsd:import namespace="%s"/>\n' % u
@@ -547,6 +582,9 @@ class Renderer(object):
             types = "\n".join(self.ctype(t) for t in self.S.types if t.ns == ns)
             if self._group_defs.get(ns):
                 types += "\n" + "\n".join(self._group_defs.pop(ns))
+            targets = self.ref_targets(ns)
+            if targets:
+                types += "\n" + "\n".join(targets)
         finally:
             self.prefixes = saved
         return ('    <xsd:schema targetNamespace="%s" elementFormDefault="%s"%s>\n%s%s\n%s\n    </xsd:schema>'
@@ -667,7 +705,14 @@ class Op(object):
     global element in namespace 0; style 'rpc': parts = [(part name, tref)],
     body_ns = index of the namespace of the soap:body."""
 
-    def __init__(self, name, style, in_type=None, parts=None, body_ns=0, out_type=None, headers=None):
+    def __init__(self, name, style, in_type=None, parts=None, body_ns=0, out_type=None, headers=None,
+                 port=None, wrapper=None):
+        # port (default None = the one port per style, port_document / port_rpc): name of an extra port group
+        # with its own portType pt_<port>, binding b_<port> and port port_<port>; operations of different
+        # groups may have the same name.  wrapper (wrapped style): (namespace index, element name) of the
+        # input wrapper element, default (0, operation name)
+        self.port = port
+        self.wrapper = wrapper
         # headers (default none): [(global element name, namespace index, tref)] - each is declared as a
         # global element of that namespace, made a part of message <op>Hdr and bound with
         # <soap:header message=.. part=.. use="literal"/> in the operation's input
@@ -683,65 +728,70 @@ class Op(object):
 def render_ops(S, ops, R=None):
     R = R or Renderer(S)
     p0 = R.prefixes[0]
-    globals_ = []
+    globals_ = {}               # namespace index -> [global element declarations]
     hdr_globals = {}
-    msgs, pops = [], []
-    doc_bops, rpc_bops = [], []
+    msgs = []
+    groups = {}                 # port group -> {"style", "pops", "bops"}; "document"/"rpc" = the historic ones
     for op in ops:
+        # names of an operation in an extra port group are made unique with the group name: operations of
+        # different port types may share their NAME
+        mid = op.name if op.port is None else "%s_%s" % (op.name, op.port)
         soaphdrs = ""
         if op.headers:
             hparts = ""
             for (gname, gns, tr) in op.headers:
                 hdr_globals.setdefault(gns, []).append('      <xsd:element name="%s" type="%s"/>' % (gname, R.tref(tr)))
                 hparts += '<wsdl:part name="h_%s" element="%s:%s"/>' % (gname, R.prefixes[gns], gname)
-                soaphdrs += '<soap:header message="%s:%sHdr" part="h_%s" use="literal"/>' % (p0, op.name, gname)
-            msgs.append('  <wsdl:message name="%sHdr">%s</wsdl:message>' % (op.name, hparts))
+                soaphdrs += '<soap:header message="%s:%sHdr" part="h_%s" use="literal"/>' % (p0, mid, gname)
+            msgs.append('  <wsdl:message name="%sHdr">%s</wsdl:message>' % (mid, hparts))
         if op.style == "wrapped":
-            globals_.append('      <xsd:element name="%s" type="%s"/>' % (op.name, R.tref(("n",) + tuple(op.in_type))))
-            inparts = '<wsdl:part name="parameters" element="%s:%s"/>' % (p0, op.name)
+            wns, wname = op.wrapper if op.wrapper is not None else (0, op.name)
+            globals_.setdefault(wns, []).append('      <xsd:element name="%s" type="%s"/>'
+                                                % (wname, R.tref(("n",) + tuple(op.in_type))))
+            inparts = '<wsdl:part name="parameters" element="%s:%s"/>' % (R.prefixes[wns], wname)
         elif op.style == "bare":
             inparts = ""
             for (gname, tr) in op.parts:
-                globals_.append('      <xsd:element name="%s" type="%s"/>' % (gname, R.tref(tr)))
+                globals_.setdefault(0, []).append('      <xsd:element name="%s" type="%s"/>' % (gname, R.tref(tr)))
                 inparts += '<wsdl:part name="p_%s" element="%s:%s"/>' % (gname, p0, gname)
         else:
             inparts = "".join('<wsdl:part name="%s" type="%s"/>' % (pn, R.tref(tr)) for pn, tr in op.parts)
         outparts = ""
         if op.out_type is not None:
-            globals_.append('      <xsd:element name="%sResponse" type="%s"/>'
-                            % (op.name, R.tref(("n",) + tuple(op.out_type))))
-            outparts = '<wsdl:part name="parameters" element="%s:%sResponse"/>' % (p0, op.name)
-        msgs.append('  <wsdl:message name="%sIn">%s</wsdl:message>' % (op.name, inparts))
-        msgs.append('  <wsdl:message name="%sOut">%s</wsdl:message>' % (op.name, outparts))
-        pops.append('    <wsdl:operation name="%s"><wsdl:input message="%s:%sIn"/>'
-                    '<wsdl:output message="%s:%sOut"/></wsdl:operation>' % (op.name, p0, op.name, p0, op.name))
+            globals_.setdefault(0, []).append('      <xsd:element name="%sResponse" type="%s"/>'
+                                              % (mid, R.tref(("n",) + tuple(op.out_type))))
+            outparts = '<wsdl:part name="parameters" element="%s:%sResponse"/>' % (p0, mid)
+        msgs.append('  <wsdl:message name="%sIn">%s</wsdl:message>' % (mid, inparts))
+        msgs.append('  <wsdl:message name="%sOut">%s</wsdl:message>' % (mid, outparts))
+        style = "rpc" if op.style == "rpc" else "document"
+        g = groups.setdefault(style if op.port is None else op.port, {"style": style, "pops": [], "bops": []})
+        g["pops"].append('    <wsdl:operation name="%s"><wsdl:input message="%s:%sIn"/>'
+                         '<wsdl:output message="%s:%sOut"/></wsdl:operation>' % (op.name, p0, mid, p0, mid))
         if op.style == "rpc":
             body = '<soap:body use="literal" namespace="%s"/>' % S.namespaces[op.body_ns][0]
-            rpc_bops.append('    <wsdl:operation name="%s"><soap:operation soapAction="act_%s" style="rpc"/>'
-                            '<wsdl:input>%s%s</wsdl:input><wsdl:output>%s</wsdl:output></wsdl:operation>'
-                            % (op.name, op.name, soaphdrs, body, body))
+            g["bops"].append('    <wsdl:operation name="%s"><soap:operation soapAction="act_%s" style="rpc"/>'
+                             '<wsdl:input>%s%s</wsdl:input><wsdl:output>%s</wsdl:output></wsdl:operation>'
+                             % (op.name, mid, soaphdrs, body, body))
         else:
-            doc_bops.append('    <wsdl:operation name="%s"><soap:operation soapAction="act_%s" style="document"/>'
-                            '<wsdl:input>%s<soap:body use="literal"/></wsdl:input>'
-                            '<wsdl:output><soap:body use="literal"/></wsdl:output></wsdl:operation>'
-                            % (op.name, op.name, soaphdrs))
-    blocks = [R.schema_block(i, "\n".join((globals_ if i == 0 else []) + hdr_globals.get(i, [])))
+            g["bops"].append('    <wsdl:operation name="%s"><soap:operation soapAction="act_%s" style="document"/>'
+                             '<wsdl:input>%s<soap:body use="literal"/></wsdl:input>'
+                             '<wsdl:output><soap:body use="literal"/></wsdl:output></wsdl:operation>'
+                             % (op.name, mid, soaphdrs))
+    blocks = [R.schema_block(i, "\n".join(globals_.get(i, []) + hdr_globals.get(i, [])))
               for i in range(len(S.namespaces))]
     tns = S.namespaces[0][0]
-    # one portType + binding per style present (a binding has one style)
+    # one portType + binding + port per group (a binding has one style): document, rpc, then the extra ones
     pieces = []
     ports = []
-    for style, bops in (("document", doc_bops), ("rpc", rpc_bops)):
-        if not bops:
-            continue
-        names = [b.split('name="')[1].split('"')[0] for b in bops]
-        pt_ops = [p for p in pops if p.split('name="')[1].split('"')[0] in names]
-        pieces.append('  <wsdl:portType name="pt_%s">\n%s\n  </wsdl:portType>' % (style, "\n".join(pt_ops)))
+    order = [k for k in ("document", "rpc") if k in groups] + [k for k in groups if k not in ("document", "rpc")]
+    for key in order:
+        g = groups[key]
+        pieces.append('  <wsdl:portType name="pt_%s">\n%s\n  </wsdl:portType>' % (key, "\n".join(g["pops"])))
         pieces.append('  <wsdl:binding name="b_%s" type="%s:pt_%s">\n'
                       '    <soap:binding style="%s" transport="http://schemas.xmlsoap.org/soap/http"/>\n%s\n'
-                      '  </wsdl:binding>' % (style, p0, style, style, "\n".join(bops)))
+                      '  </wsdl:binding>' % (key, p0, key, g["style"], "\n".join(g["bops"])))
         ports.append('    <wsdl:port name="port_%s" binding="%s:b_%s">'
-                     '<soap:address location="http://unused.invalid/%s"/></wsdl:port>' % (style, p0, style, style))
+                     '<soap:address location="http://unused.invalid/%s"/></wsdl:port>' % (key, p0, key, key))
     return ("""<?xml version='1.0' encoding='UTF-8'?>
 <wsdl:definitions targetNamespace="%s" %s
  xmlns:soap="http://schemas.xmlsoap.org/wsdl/soap/"
